@@ -23,12 +23,12 @@ RULE = (
     "impulse pair); distinct = digest of the whole operation trace."
 )
 ASSUMPTIONS = [
-    "norm-wise tolerance 64*eps(real_t)*dx^d*||G||_2*||f||_2 (+ 4*eps*|ref| for the final cast); FFTW trusted",
+    "norm-wise tolerance 128*eps(real_t)*dx^d*||G||_2*||f||_2 (+ 4*eps*|ref| for the final cast); FFTW trusted",
     "right-hand sides are finite with magnitudes in [2^-12, 2^12]",
 ]
 BUDGET_S = {"quick": 150.0, "thorough": 2400.0}
 
-K_TOL = 64.0
+K_TOL = 128.0
 
 
 def _new_state(ctx):
